@@ -657,7 +657,12 @@ fn build_for(lhs: &AstNode, rhs: &AstNode) -> Result<Evaluator> {
       if let Some(evaluator_range_end) = evaluator_range_end {
         expression_evaluator.add_range(name.clone(), evaluator(scope), evaluator_range_end(scope));
       } else {
-        expression_evaluator.add_single(name.clone(), evaluator(scope));
+        let value = evaluator(scope);
+        if matches!(&value, Value::List(values) if values.is_empty()) {
+          // the cartesian product with an empty domain is empty
+          return Value::List(Values::default());
+        }
+        expression_evaluator.add_single(name.clone(), value);
       }
     }
     Value::List(expression_evaluator.evaluate(scope, &rhe))
@@ -780,7 +785,12 @@ fn build_every(lhs: &AstNode, rhs: &AstNode) -> Result<Evaluator> {
     Ok(Box::new(move |scope: &Scope| {
       let mut expression_evaluator = EveryExpressionEvaluator::new();
       for (name, expr_evaluator) in &expr_evaluators {
-        expression_evaluator.add(name.clone(), expr_evaluator(scope));
+        let value = expr_evaluator(scope);
+        if matches!(&value, Value::List(values) if values.is_empty()) {
+          // the cartesian product with an empty domain is empty
+          return Value::Boolean(true);
+        }
+        expression_evaluator.add(name.clone(), value);
       }
       expression_evaluator.evaluate(scope, &satisfies_evaluator)
     }))
@@ -1550,7 +1560,12 @@ fn build_some(lhs: &AstNode, rhs: &AstNode) -> Result<Evaluator> {
     Ok(Box::new(move |scope: &Scope| {
       let mut expression_evaluator = SomeExpressionEvaluator::new();
       for (name, expr_evaluator) in &expr_evaluators {
-        expression_evaluator.add(name.clone(), expr_evaluator(scope));
+        let value = expr_evaluator(scope);
+        if matches!(&value, Value::List(values) if values.is_empty()) {
+          // the cartesian product with an empty domain is empty
+          return Value::Boolean(false);
+        }
+        expression_evaluator.add(name.clone(), value);
       }
       expression_evaluator.evaluate(scope, &satisfies_evaluator)
     }))
